@@ -213,7 +213,9 @@ class SbxRun:
             if kind == 'run':
                 refres = self.ref.run(op.get('code'), op.get('filename'), fault=rfault)
             elif kind == 'call':
-                refres = self.ref.call(op['fn'], tuple(op_args(op)), copy.deepcopy(dict(op.get('kwargs', {}))), fault=rfault)
+                rargs = op_args(op)
+                refres = self.ref.call(op['fn'], tuple(rargs), copy.deepcopy(dict(op.get('kwargs', {}))), fault=rfault,
+                                       args_locals=op.get('args_locals'))
             else:
                 refres = self.ref.evaluate(op['expr'], fault=rfault)
             rv = refres.pop('value')
@@ -252,7 +254,8 @@ class SbxRun:
                                 threaded=op.get('threaded'))
                 elif kind == 'call':
                     ret = C.call(op['fn'], *op_args(op), inputs=inputs, threaded=op.get('threaded'),
-                                 target=op.get('target', '_'), **copy.deepcopy(op.get('kwargs', {})))
+                                 target=op.get('target', '_'), args_locals=op.get('args_locals'),
+                                 **copy.deepcopy(op.get('kwargs', {})))
                 else:
                     ret = C.evaluate(op['expr'], threaded=op.get('threaded'))
             finally:
